@@ -105,8 +105,8 @@ def run(ctx):
             cls = n
     ctx.need(cls is not None, 'SqlalchemyRender not found')
     init = [m for m in cls.body if isinstance(m, ast.FunctionDef) and m.name == '__init__'][0]
-    dd = [n for n in ast.walk(init) if isinstance(n, ast.Assign) and isinstance(n.value, ast.Dict) and norm(n.targets[0]) == 'dialects']
-    ctx.need(len(dd) == 1, 'dialect table not found')
+    from .C17 import dialect_table
+    dd = [dialect_table(ctx, tree, init)]
     names = [k.value for k in dd[0].value.keys if isinstance(k, ast.Constant)]
     modules = {k.value: norm(v) for k, v in zip(dd[0].value.keys, dd[0].value.values) if isinstance(k, ast.Constant)}
     ctx.setcount('dialect_keys', len(names))
